@@ -35,9 +35,15 @@ def decode(v):
         if "__obj__" in v:
             return v
         if "__set__" in v:
-            return set()
+            try:
+                return set(decode(x) for x in v.get("members", []))
+            except TypeError:
+                return set()
         if "__map__" in v:
-            return {}
+            try:
+                return {decode(k): decode(x) for k, x in v.get("items", [])}
+            except TypeError:
+                return {}
         if "__opaque__" in v:
             return object()
         return {k: decode(x) for k, x in v.items()}
@@ -193,6 +199,52 @@ def main(path):
     oldenv = dict(specfuncs.NATIVE)
     oldenv.update(old)
 
+    # quantifiers are evaluated over the values that occur in the pre- and post-state (finitely many candidates):
+    # a candidate that falsifies the body is a genuine witness; if none does the replay is inconclusive
+    pool = {"str": {"", "x"}, "int": {0, 1, -1}, "bytes": {b""}}
+
+    def harvest(v, depth=0):
+        if depth > 4:
+            return
+        if isinstance(v, bool):
+            return
+        if isinstance(v, str):
+            pool["str"].add(v)
+        elif isinstance(v, int):
+            pool["int"].update((v, v + 1, v - 1))
+        elif isinstance(v, bytes):
+            pool["bytes"].add(v)
+        elif isinstance(v, dict):
+            for k, x in v.items():
+                harvest(k, depth + 1)
+                harvest(x, depth + 1)
+        elif isinstance(v, (list, tuple, set, frozenset)) or type(v).__name__ == "deque":
+            for x in list(v)[:50]:
+                harvest(x, depth + 1)
+        elif hasattr(v, "__dict__"):
+            for x in list(vars(v).values())[:50]:
+                harvest(x, depth + 1)
+
+    for v_ in list(call_args.values()) + [selfobj, result] + list(old.values()):
+        harvest(v_)
+
+    def _cands(f, types):
+        import inspect as _insp
+        import itertools as _it
+        n = len(_insp.signature(f).parameters)
+        tys = list(types) + ["int"] * (n - len(types))
+        doms = [sorted(pool.get(t, pool["int"]), key=repr)[:40] for t in tys[:n]]
+        return _it.islice(_it.product(*doms), 20000)
+
+    def forall(f, *types):
+        return all(f(*c) for c in _cands(f, types))
+
+    def exists(f, *types):
+        return any(f(*c) for c in _cands(f, types))
+
+    for e_ in (env, oldenv):
+        e_["forall"], e_["exists"] = forall, exists
+
     class OldProxy:
         def __call__(self, x):
             return x
@@ -240,6 +292,13 @@ def main(path):
         print(f"required to raise when: {clause} -> {val!r}; raised={raised is not None}")
         print("REPRODUCED" if (val and raised is None) else "NOT-REPRODUCED")
         return
+    if kind == "frame" and ".frame." in str(rep.get("obligation", "")):
+        fld = str(rep["obligation"]).split(".frame.")[-1].split("__")[0]
+        if selfobj is not None and old.get("self") is not None and hasattr(selfobj, fld) and hasattr(old["self"], fld):
+            same = getattr(selfobj, fld) == getattr(old["self"], fld)
+            print(f"required: self.{fld} unchanged; before {getattr(old['self'], fld)!r}, after {getattr(selfobj, fld)!r}")
+            print("REPRODUCED" if not same else "NOT-REPRODUCED")
+            return
     if kind in ("ensures-raise", "frame"):
         tree = ast.fix_missing_locations(Rew().visit(tree)) if kind == "ensures-raise" else tree
         try:
